@@ -42,3 +42,13 @@ Theorem C18_hwm_refuted :
   forall u p, sensitive (run (holds (authz (Some (load [])) u p) true) false true h) = true.
 Proof. exact hwm_refuted. Qed.
 Print Assumptions C18_hwm_refuted.
+
+(* A connection does exactly what its requests do when each is run alone against the same store:
+   the model carries no authorization state from one request to the next (the tie checks the real
+   services on multi-request connections against this). *)
+Theorem C18_connection_is_map : forall st qs cs os,
+  conn_loop st qs [] [] = Some (cs, os) ->
+  exists hs, map (run_request st) qs = map Some hs /\
+             cs = List.concat (map s_calls hs) /\ os = List.concat (map s_out hs).
+Proof. exact connection_is_map. Qed.
+Print Assumptions C18_connection_is_map.
